@@ -152,3 +152,162 @@ func checkConstantIdleSleep(c *Ctx, sr *schedRoles, rule string) {
 		c.R.Pass(rule, p.Name+":priority#sleep", "-", "the scheduler never sleeps")
 	}
 }
+
+// checkErrForwarding (C15/D9): a simplified discipline that owns an inner discipline hands every
+// error it receives from the inner Err() on to its own error channel (a fault detected by the
+// inner discipline must not look like a normal termination).
+func checkErrForwarding(c *Ctx, p *Prog, rule string) {
+	d := p.Disc("priority.Simple")
+	if d == nil {
+		return
+	}
+	n := 0
+	for _, e := range d.Gos {
+		if e.Multi || e.Parent != nil {
+			continue
+		}
+		rt := p.Routine(d, e)
+		has := false
+		for _, fn := range rt.Funcs {
+			for _, rs := range p.RecvSites(fn) {
+				if p.chanRole(rs.Chan) == "call:Err" {
+					has = true
+				}
+			}
+		}
+		if !has {
+			continue
+		}
+		n++
+		cfg := &ItemFlowConfig{
+			P:        p,
+			IsSource: func(rs *RecvSite) bool { return p.chanRole(rs.Chan) == "call:Err" },
+			SinkInstr: func(fr *Frame, in ssa.Instruction) (bool, ssa.Value) {
+				if s, ok := in.(*ssa.Send); ok && p.chanRole(s.Chan) == "field:err" {
+					return true, s.X
+				}
+				return false, nil
+			},
+		}
+		res := RunItemFlow(cfg, e.Entry)
+		var problems []string
+		for _, pr := range res.Problems {
+			problems = append(problems, pr)
+		}
+		for _, fn := range rt.Funcs {
+			for _, rs := range p.RecvSites(fn) {
+				if p.chanRole(rs.Chan) == "call:Err" && rs.Val == nil {
+					problems = append(problems, "the value received from the inner discipline's Err() at "+rs.Pos(p)+" is discarded")
+				}
+			}
+		}
+		c.R.Check(len(problems) == 0, rule, p.FnKey(e.Entry)+"#err-forward", p.Pos(e.Entry.Pos()), fmt.Sprintf("%d receive(s) from the inner Err(), each forwarded to the own error channel", res.Sources), "an error reported by the inner discipline is not forwarded to Err(): "+strings.Join(dedup(problems), "; ")+": a divider fault then looks like a normal termination")
+	}
+	if n == 0 {
+		c.R.Fail(rule, p.Name+":priority.Simple#err-forward", "-", "UNRESOLVED-ANCHOR: the simplified discipline never receives from the inner discipline's Err()")
+	}
+}
+
+// checkCtorRejections (C18/U8): the v2 constructor refuses a configuration only for the documented
+// reasons - no divider, HandlersQuantity == 0, no inputs, a divider fault, a zero share for some
+// registered priority. Any other error exit can refuse a configuration that the utils helpers
+// judge non-fatal.
+func checkCtorRejections(c *Ctx, p *Prog, rule string) {
+	d := p.Disc("priority.Discipline")
+	if d == nil || len(d.Ctors) == 0 {
+		c.R.Fail(rule, p.Name+":priority#ctor", "-", "UNRESOLVED-ANCHOR: constructor of the priority discipline not found")
+		return
+	}
+	ctor := d.Ctors[0]
+	// functions whose error result the constructor hands on (directly or through such a function)
+	scope := map[*ssa.Function]bool{ctor: true}
+	changed := true
+	for changed {
+		changed = false
+		for fn := range scope {
+			for _, b := range fn.Blocks {
+				ret, ok := b.Instrs[len(b.Instrs)-1].(*ssa.Return)
+				if !ok || len(ret.Results) == 0 {
+					continue
+				}
+				ev := stripChangeType(returnedValues(ret)[len(ret.Results)-1])
+				if ex, isEx := ev.(*ssa.Extract); isEx {
+					ev = ex.Tuple
+				}
+				if call, isCall := ev.(*ssa.Call); isCall {
+					if cal := p.Callee(call); cal != nil && p.IsProduct(cal) && !isCheckedDivision(cal) && !scope[cal] {
+						scope[cal] = true
+						changed = true
+					}
+				}
+			}
+		}
+	}
+	n := 0
+	for fn := range scope {
+		c.R.Funcs[p.FnKey(fn)] = true
+		for _, b := range fn.Blocks {
+			ret, ok := b.Instrs[len(b.Instrs)-1].(*ssa.Return)
+			if !ok || len(ret.Results) == 0 || b == fn.Recover {
+				continue
+			}
+			vals := returnedValues(ret)
+			ev := vals[len(vals)-1]
+			if typeShort(ev.Type()) != "error" || isNilConst(ev) {
+				continue
+			}
+			// a forwarded error: the value of a call (tested non-nil on the way)
+			fv := stripChangeType(ev)
+			if ex, isEx := fv.(*ssa.Extract); isEx {
+				fv = ex.Tuple
+			}
+			if _, isCall := fv.(*ssa.Call); isCall {
+				continue
+			}
+			n++
+			reason := ""
+			okReason := AllPathsPass(b, func(e CondEdge) bool {
+				iff := e.From.Instrs[len(e.From.Instrs)-1].(*ssa.If)
+				// failed zero-share test
+				base, neg := condOf(iff.Cond)
+				if call, isCall := base.(*ssa.Call); isCall {
+					if over, isFA := p.forAllShape(p.Callee(call)); isFA && over == "slice" && (e.Succ == 0) == neg {
+						reason = "zero share"
+						return true
+					}
+				}
+				cm := p.NormCmp(iff.Cond, e.Succ == 0)
+				if cm == nil || cm.LC != 0 || cm.RC != 0 {
+					return false
+				}
+				l, r := deepStrip(cm.L), deepStrip(cm.R)
+				zeroCmp := func(x, y *Sym) bool {
+					return y.String() == "0" && (cm.Op == token.EQL || (cm.Op == token.LEQ && x == l))
+				}
+				for _, pair := range [][2]*Sym{{l, r}, {r, l}} {
+					x, y := pair[0], pair[1]
+					if _, path, okp := x.FieldPath(); okp && zeroCmp(x, y) && path[len(path)-1] == "HandlersQuantity" {
+						reason = "HandlersQuantity == 0"
+						return true
+					}
+					if x.Op == "call" && x.Name == "len" && len(x.Args) == 1 && zeroCmp(x, y) {
+						if _, path, okp := x.Args[0].FieldPath(); okp && path[len(path)-1] == "Inputs" {
+							reason = "no inputs"
+							return true
+						}
+					}
+					if _, path, okp := x.FieldPath(); okp && path[len(path)-1] == "Divider" && cm.Op == token.EQL && (y.String() == "nil" || y.Op == "const") {
+						reason = "no divider"
+						return true
+					}
+				}
+				return false
+			})
+			c.R.Check(okReason, rule, fmt.Sprintf("%s#reject.%d", p.FnKey(fn), n), p.InstrPos(ret), "rejected for: "+reason,
+				"the constructor returns "+p.Sym(ev).String()+" under "+describeEdges(p, DomEdges(b))+", which is none of {no divider, HandlersQuantity == 0, no inputs, divider fault, zero share of a registered priority}: a configuration the helpers judge non-fatal can be refused")
+		}
+	}
+	if n == 0 {
+		c.R.Fail(rule, p.FnKey(ctor)+"#reject", p.Pos(ctor.Pos()), "UNRESOLVED-ANCHOR: the constructor has no error exits")
+	}
+}
